@@ -22,8 +22,10 @@
     the index path of the port and the C string in the buffer.  `enumerate ts pre` is the
     list the statement fixes.
   * The model contains the repairs fixes/C09-recurse0-strchr.patch (F17: the search for '#'
-    started behind the name's terminator) and fixes/C09-recurse0-index-text.patch (text
-    behind `#N` in a sub-tree name was replaced by "N/…").
+    started behind the name's terminator; in the repository as commit 1147f04),
+    fixes/C09-recurse0-index-text.patch (text behind `#N` in a sub-tree name was replaced by
+    "N/…") and fixes/C09-enabled-subport-runtime.patch (a toggle inside a sub-tree was asked
+    on the parent's object).
 
   One deviation remains (known finding C09-K1, acknowledged in test/walk-ports.cpp): for a
   *leaf* name with more than one '#', `bundle_foreach` expands only the first.  Trigger
@@ -61,6 +63,11 @@ theorem walk_eq_enumerate_root_partial (ts : List STree) (J : Buf) (hwf : TreeWF
     ∃ b', walkPorts {} (toPorts ts) none (0 :: 0 :: J) = .ok (enumerate ts [47], b') := by
   obtain ⟨J', h, _⟩ := walkPorts_code_empty ts J hwf hcap
   exact ⟨_, by rw [h, codeList_eq_enumList ts [47] [] 0 hk1]; rfl⟩
+
+/-- "exactly once", counted: `enumerate` has one entry per leaf and index tuple — the sum over
+    the leaves of the product of all `N` on the way (`countList`) — whatever the prefix. -/
+theorem enumerate_count (ts : List STree) (pre : Bytes) : (enumerate ts pre).length = countList ts :=
+  enumList_length ts pre [] 0
 
 /-- the leaf `z#2/q#2` -/
 def k1Tree : List STree :=
@@ -268,6 +275,7 @@ example : (toPorts exTree).map (·.name) =
 example : needList exTree = 12 := by decide
 example : PrefixOk [47] := ⟨by simp, by intro c hc; simp at hc; subst hc; decide⟩
 example : (enumerate exTree [47]).length = 22 := by decide
+example : countList exTree = 22 := by decide
 /-- "/a2/b1/c/x1y" is reported for the port with index path 0.0 -/
 example : ([0, 0], [47, 97, 50, 47, 98, 49, 47, 99, 47, 120, 49, 121]) ∈ enumerate exTree [47] := by decide
 example : IdxBounded [97, 50, 47, 98, 49, 47, 99, 47, 120, 49, 121] := idxBounded_of_check (by decide)
